@@ -24,12 +24,16 @@ def base_stream(ts):
         + [E(kind="AddVstorage", creator=a, size=3000000) for a in ("a01", "a02", "a03")],
         [E(kind="Delegate", creator="a02", val="v1", amount=250000), E(kind="Delegate", creator="a09", val="v1", amount=500000),
          E(kind="Delegate", creator="a01", val="v2", amount=250000)],   # two super nodes: the round-robin cursor moves
-        [store],
-        [E(kind="Complete", creator=a, provider=a, order=1, size=1000) for a in ("a01", "a02", "a03")],
+        # a second order that is cancelled again: its shard ids are consumed (counters != number of live records)
+        [store, dict(store, data="D3", commit="D3", alias="z", replica=1)]
+        + [dict(store, data=d, commit=d, alias="m" + d, replica=1) for d in ("D4", "D5", "D6")],      # orders 3, 4, 5
+        [E(kind="Complete", creator=a, provider=a, order=o, size=1000) for o in (1, 3, 4, 5) for a in ("a01", "a02", "a03")]
+        + [E(kind="Cancel", creator="a01", provider="a01", order=2)],
         [dict(FAIL_DELEGATE)],                                                    # setfail
         [E(kind="Delegate", creator="a10", val="v1", amount=10)],                 # use: a small first-time delegation
         [E(kind="Binding", creator="a05", acc="a05", did="s1", status=1, n=ts)],  # fresh
-        [E(kind="Renew", creator="a01", provider="a01", owner="d1", signer="d1", datas=["D1"], dur=3600, timeout=10),
+        # one renewal of several models: any iteration over an unordered collection of them shows up as disagreement
+        [E(kind="Renew", creator="a01", provider="a01", owner="d1", signer="d1", datas=["D1", "D4", "D5", "D6"], dur=3600, timeout=10),
          E(kind="Migrate", creator="a01", provider="a01", datas=["D1"])],
         # fault reports by the fishman a03 against whoever holds shards 0/1 (one message per accused provider), a recovery
         # declaration, and a second store left in flight (pending timeout): state that must survive export/import
